@@ -52,7 +52,7 @@ namespace {
 enum Kind { K_VERTEX, K_EMIT, K_DEP, K_CYCLE, K_INJECT, K_TARGET };
 const char* const kNames[] = {"vertex", "emit", "dep", "cycle", "inject", "target", nullptr};
 
-constexpr int MAXD = 16, MAXV = 8, MAXDEP = 4, MAXEMIT = 3, MAXCYC = 3;
+constexpr int MAXD = 16, MAXV = 8, MAXDEP = 8, MAXEMIT = 3, MAXCYC = 3;
 
 struct DepP { int target = 0, cond = -1, sense = 1, level = 0, opid = 0; };
 struct VertP {
@@ -743,6 +743,30 @@ int gen_diamond(Rng& r, std::function<void(int, int64_t, int64_t, int64_t)> add,
   return k;
 }
 
+// Targeted shape ("fan-in"): a sink V with many dependencies, the first ones on
+// vertices that finish on other threads while the activating thread is still
+// walking V's remaining (already ready) dependencies: readiness notifications
+// race with the bookkeeping at the end of V's activation.
+int gen_fanin(Rng& r, std::function<void(int, int64_t, int64_t, int64_t)> add, int64_t& boolmask, int& ni) {
+  (void)boolmask;
+  ni = 3;
+  int np = (int)r.range(1, 2);
+  int k = ni;
+  for (int v = 0; v < np; v++) {
+    add(K_VERTEX, (int64_t)r.range(1, 20), v, r.chance(1, 3) ? ((int64_t)r.range(1, 3) << 1) : 0);
+    add(K_EMIT, 1, v, k++);
+    if (r.chance(1, 2)) add(K_DEP, 1, v, (int64_t)r.below(3));
+  }
+  int vkey = np;
+  add(K_VERTEX, (int64_t)r.range(1, 20), vkey, 0);
+  add(K_EMIT, 1, vkey, k++);
+  // pending producers first, then a run of ready inputs
+  for (int v = 0; v < np; v++) add(K_DEP, 1, vkey, (int64_t)(ni + v));
+  int nready = (int)r.range(2, 5);
+  for (int i = 0; i < nready; i++) add(K_DEP, 1, vkey, (int64_t)r.below(3));
+  return k;
+}
+
 void gen(Rng& r, Plan& p, const GenParams& gp) {
   gen_common(r, p, SB_HALF, false, 3000);
   int ncyc = (int)r.range(1, 3);
@@ -752,8 +776,11 @@ void gen(Rng& r, Plan& p, const GenParams& gp) {
   int64_t boolmask = 0;
   int ni = 0, nd = 0;
   bool diamond = r.chance(1, 5);
+  bool fanin = !diamond && r.chance(1, 6);
   if (diamond) {
     nd = gen_diamond(r, [&](int kind, int64_t a, int64_t b, int64_t c) { add(0, kind, a, b, c); }, boolmask, ni);
+  } else if (fanin) {
+    nd = gen_fanin(r, [&](int kind, int64_t a, int64_t b, int64_t c) { add(0, kind, a, b, c); }, boolmask, ni);
   } else {
     const int maxd = gp.thorough ? 12 : 10;
     int nv = (int)r.range(1, 6);
@@ -800,8 +827,8 @@ void gen(Rng& r, Plan& p, const GenParams& gp) {
   p.cfg["nd"] = nd;
   p.cfg["boolmask"] = boolmask;
   int x = (int)r.below(20);
-  p.cfg["exec"] = diamond ? (x < 2 ? 0 : x < 10 ? 1 : 2) : (x < 6 ? 0 : x < 13 ? 1 : 2);
-  p.cfg["workers"] = (int64_t)r.range(diamond ? 2 : 1, 3);
+  p.cfg["exec"] = (diamond || fanin) ? (x < 2 ? 0 : x < 10 ? 1 : 2) : (x < 6 ? 0 : x < 13 ? 1 : 2);
+  p.cfg["workers"] = (int64_t)r.range((diamond || fanin) ? 2 : 1, 3);
   p.cfg["refuse_mask"] = gp.mode == 1 ? (int64_t)r.range(1, 63) : 0;
   p.cfg["max_idle_jumps"] = 6000;
   p.cfg["late_fatal"] = gp.mode == 3 ? 0 : 1;
@@ -811,7 +838,7 @@ void gen(Rng& r, Plan& p, const GenParams& gp) {
     bool conc_cycle = (gp.mode < 0 && r.chance(7, 20)) || (gp.mode >= 2 && r.chance(4, 5));
     for (int k = 0; k < nd; k++) {
       bool input = k < ni;
-      if (input ? !r.chance(48, 50) : !r.chance(diamond ? 1 : 3, 50)) continue;
+      if (input ? !r.chance(fanin ? 50 : 48, 50) : !r.chance((diamond || fanin) ? 1 : 3, 50)) continue;
       int64_t fl = r.chance(1, 9) ? 1 : 0;
       if (input && conc_cycle && r.chance(1, 2)) fl |= 2 | ((int64_t)r.range(0, 6) << 8);
       add(t, K_INJECT, (int64_t)r.range(1, 1 << 20), k, fl);
@@ -819,6 +846,7 @@ void gen(Rng& r, Plan& p, const GenParams& gp) {
     int nt = 0;
     bool none = r.chance(1, 40);
     if (diamond && r.chance(4, 5)) { add(t, K_TARGET, 1, nd - 2, 0); add(t, K_TARGET, 1, nd - 1, 0); nt = 2; }
+    else if (fanin) { add(t, K_TARGET, 1, nd - 1, 0); nt = 1; }
     else
       for (int k = 0; k < nd && !none; k++)
         if (r.chance(k < ni ? 2 : 9, 25)) { add(t, K_TARGET, 1, k, 0); nt++; }
